@@ -23,7 +23,7 @@ def seeds_table():
                 f = f.split("(")[0]
                 if f not in fns:
                     fns.append(f)
-        det = "; ".join("%s %s" % (x["property"], ",".join(x["rules"])) for x in m.get("detected_by", [])) or "**missed**"
+        det = "; ".join("%s %s" % (x["property"], ",".join(x["rules"])) for x in m.get("detected_by", [])) or ("not detected: outside the property as stated (9.5)" if m.get("not_detected_reason") else "**missed**")
         need = " ".join(m.get("needs_to_manifest", "").split())
         need = need.replace("|", "/")
         if len(need) > 150:
@@ -31,7 +31,7 @@ def seeds_table():
         rows.append("| %s | %s | %s | %s | %s |" % (m["id"], ", ".join(files), ", ".join(fns[:2]), det, need))
     head = "| seed | file(s) | function | detected by (own property's check) | needs, to manifest |\n|---|---|---|---|---|\n"
     return head + "\n".join(rows) + "\n\n%d seeded changes, %d detected by the check of the property they were written against.\n" % (
-        len(rows), sum(1 for r in rows if "**missed**" not in r))
+        len(rows), sum(1 for r in rows if "**missed**" not in r and "not detected" not in r))
 
 
 def mutants_table():
